@@ -234,7 +234,7 @@ def judge(t):
     tag = '%s/%s/%s' % ('TSCF' if use_tscf else 'NTSCF', 'UDP' if use_udp else 'raw', 'FD' if fd else 'classic')
     desc = '%s, frames %s' % (tag, ['%s len %d' % f for f in frames])
     if tk is None:
-        return [('undecided', 'talker', desc + ': ' + err)], 1, 0
+        return [('undecided', 'talker', desc + ': ' + err)], 1, 0, None
     out = []
     ann = announced(tk['img'], tk['cf'], use_tscf)
     if ann != tk['acf']:
@@ -309,13 +309,24 @@ def judge(t):
                         break
     if not feas and not out:
         out.append(('undecided', 'listener', '%s: no feasible world' % desc))
+    sample = None
+    if feas and not out:
+        w0, wr0 = feas[0]
+        if wr0:
+            order = range(4) if not lm.big_endian else range(3, -1, -1)
+            idv = []
+            for i in order:
+                idv.extend(B.to_bits(wr0[0][i], 8))
+            sample = {'scenario': desc, 'packet_octets_sent_by_talker_main': tk['len'], 'announced_acf_octets': ann,
+                      'listener_worlds': len(feas), 'frames_written': len(wr0),
+                      'frame0_can_id_out_msb_first': B.fmt_vec(tuple(idv), 32), 'frame0_len_out': wr0[0][4]}
     aspects = ['announced-length', 'frame-count', 'identifier', 'rtr', 'eff', 'len', 'data'] + (['brs', 'esi', 'fdf'] if fd else [])
     failed = set()
     for st, key, text in out:
         for a in aspects:
             if (':' + a + ':') in (':' + key + ':') or key.startswith(a):
                 failed.add(a)
-    return out, len(aspects), len([a for a in aspects if a not in failed])
+    return out, len(aspects), len([a for a in aspects if a not in failed]), sample
 
 
 def short(t):
@@ -384,7 +395,9 @@ def run(tier, res):
     sc = scenarios(tier)
     outs = pmap(judge, sc)
     agg = {}
-    for t, (issues, n_asp, n_ok) in zip(sc, outs):
+    for t, (issues, n_asp, n_ok, smp) in zip(sc, outs):
+        if smp and (len(t[3]) > 1 or t[3][0][1] in (0, 8, 64)):
+            res.sample(smp, limit=6)
         res.count('tunnel scenarios analysed (control format x encapsulation x variant x frames)')
         res.count('aspects compared (announced length, frame count, identifier, flags, length, data)', n_asp)
         res.obligations += n_asp
@@ -412,9 +425,6 @@ def run(tier, res):
             suffix = ':L' + compress(lens)
         res.violations.append({'key': k + suffix, 'detail': {}, 'text': '%s [%d scenario(s) fail this way%s]'
                                % (a['text'], a['n'], (', single-frame lengths ' + compress(lens)) if lens else '')})
-    res.sample({'scenario': 'NTSCF/raw/classic, one extended frame of 8 octets', 'talker': 'init_cf_pdu + prepare_acf_packet + update_cf_length',
-                'listener': 'new_packet with modelled recv/write', 'symbolic': 'identifier (29 bits), RTR, data octets',
-                'compared': 'can_id bits, len, data of the frame handed to write()'})
     res.rule = __doc__
     res.explanation = __doc__
     res.assumptions += ['the listener main()/poll loop and option parsing are not analysed', 'input frames are well-formed',
